@@ -101,6 +101,8 @@ def enumerate_cases(quick, seed=0):
                 for c in copies:
                     cases.append(_hist(name, variant, order, [link, c]))
                     cases.append(_hist(name, variant, order, [link, ["reopen", "blind"], c]))
+                    if not quick:
+                        cases.append(_hist(name, variant, order, [link, ["reopen", "observe"], c]))
                     for c2 in copies_small if quick else copies:
                         # a masked copy of a masked copy would need a third mask geometry
                         if c[3] in ("masked", "masked2", "cross_masked") and c2[3] in ("masked", "masked2", "cross_masked"):
